@@ -13,7 +13,7 @@ From Coq Require Import Reals ZArith List Bool Field.
 From Coquelicot Require Import Coquelicot.
 From V Require Import Base.FieldSig Base.Sums Base.Loops Base.Arr.
 From V Require Import Model.FIT Gen.MapsVol Gen.MapsMap Model.Maps Model.Adjoint.
-From V Require Import Proofs.Adjoint Proofs.AdjointConcrete Proofs.Maps.
+From V Require Import Model.Interp Proofs.Adjoint Proofs.AdjointConcrete Proofs.VolAvgT Proofs.Maps.
 Import ListNotations.
 
 Section C07.
@@ -142,10 +142,8 @@ Section C07concrete.
   Proof. exact (vol_avg_body Fth two_nz nx ny nz vol ex ey ez ox oy oz iz iy ix i j k). Qed.
 
   (* 8. ... and the whole loop nest, for every shape: every cell receives the
-     sum over all edges of these contributions (the transpose of "each edge
-     averages its four neighbour cells", the M_e of core.amat_x / Model/FIT.v).
-     Closed form of the sums and the global <.,.> identity: see docs (gap). *)
-  Theorem vol_avg_is_edge_avg_transpose_partial nx ny nz (vol ex ey ez ox oy oz : A3) i j k :
+     sum over all edges of these contributions. *)
+  Theorem vol_avg_cell_sums nx ny nz (vol ex ey ez ox oy oz : A3) i j k :
     0 <= nx -> 0 <= ny -> 0 <= nz ->
     let r := interp_edges_to_vol_averages nx ny nz ex ey ez vol ox oy oz in
     fst (fst r) i j k
@@ -158,12 +156,63 @@ Section C07concrete.
     = (oz i j k + zsum 0 (nz+1) (fun iz => zsum 0 (ny+1) (fun iy =>
          zsum 0 (nx+1) (fun ix => contrib_z nx ny nz vol ez ix iy iz i j k))))%F.
   Proof. exact (vol_avg_sum Fth two_nz nx ny nz vol ex ey ez ox oy oz i j k). Qed.
+
+  (* 8b. THE GLOBAL TRANSPOSE IDENTITY of the generated kernel, for every shape
+     nx, ny, nz >= 1, every volume array, every edge field (ex,ey,ez) and every
+     cell-field triple (cx,cy,cz):
+        sum over cells of  AvT(e)_x cx + AvT(e)_y cy + AvT(e)_z cz
+      = sum over x-edges of ex * edge_avg_x (vol cx)  +  same for y and z,
+     where AvT(e) is the output of interp_edges_to_vol_averages started from
+     zero, the x-edges are the box nx x (ny+1) x (nz+1) (all edges the loop
+     visits, boundary edges included), and edge_avg_x is "the four neighbour
+     cells, clamped exactly as the code clamps them, times 1/4"
+     (Model/Adjoint.v; sum3 is the box sum of Model/Interp.v). *)
+  Theorem vol_avg_is_edge_avg_transpose nx ny nz (vol ex ey ez cx cy cz : A3) :
+    1 <= nx -> 1 <= ny -> 1 <= nz ->
+    let r := interp_edges_to_vol_averages nx ny nz ex ey ez vol zero3 zero3 zero3 in
+    sum3 nx ny nz (fun i j k => (fst (fst r) i j k * cx i j k + snd (fst r) i j k * cy i j k
+                                 + snd r i j k * cz i j k)%F)
+    = (sum3 nx (ny+1) (nz+1) (fun i j k => (ex i j k * edge_avg_x ny nz (mul3 vol cx) i j k)%F)
+       + sum3 (nx+1) ny (nz+1) (fun i j k => (ey i j k * edge_avg_y nx nz (mul3 vol cy) i j k)%F)
+       + sum3 (nx+1) (ny+1) nz (fun i j k => (ez i j k * edge_avg_z nx ny (mul3 vol cz) i j k)%F))%F.
+  Proof.
+    intros Hx Hy Hz.
+    exact (vol_avg_transpose Fth two_nz nx ny nz vol Hx Hy Hz ex ey ez cx cy cz).
+  Qed.
+
+  (* 8c. the edge-side operator IS the edge mass averaging of core.amat_x
+     (Model/FIT.v, C02) applied to eta := vol * c on every edge the kernel
+     visits (transverse indices 0 <= . < n, lower boundary included: both clamp
+     with max 0 (.-1)) ... *)
+  Theorem edge_avg_is_FIT_edge_mass nx ny nz (eta : A3) i j k :
+    1 <= nx -> 1 <= ny -> 1 <= nz ->
+    (0 <= j < ny -> 0 <= k < nz -> edge_avg_x ny nz eta i j k = Me_x eta i j k) /\
+    (0 <= i < nx -> 0 <= k < nz -> edge_avg_y nx nz eta i j k = Me_y eta i j k) /\
+    (0 <= i < nx -> 0 <= j < ny -> edge_avg_z nx ny eta i j k = Me_z eta i j k).
+  Proof.
+    intros Hx Hy Hz. repeat split; intros.
+    - now apply (edge_avg_x_is_Me_x Fth two_nz ny nz).
+    - now apply (edge_avg_y_is_Me_y Fth two_nz nx nz).
+    - now apply (edge_avg_z_is_Me_z Fth two_nz nx ny).
+  Qed.
+
+  (* 8d. ... and on the upper boundary edges (transverse index = n, which
+     amat_x never visits and where PEC fields vanish) the last cell row is
+     taken twice; shown for x-edges with j = ny (the other five are alike) *)
+  Theorem edge_avg_upper_boundary ny nz (eta : A3) i k :
+    1 <= ny ->
+    edge_avg_x ny nz eta i ny k
+    = ((eta i (ny-1)%Z (ixm k) + eta i (ny-1)%Z (ixp nz k)) / (1 + 1))%F.
+  Proof. intros Hy. exact (edge_avg_x_upper_y Fth two_nz ny nz Hy eta i k). Qed.
 End C07concrete.
 
 Print Assumptions gradient_shape.
 Print Assumptions aniso_collection.
 Print Assumptions vol_avg_iteration.
-Print Assumptions vol_avg_is_edge_avg_transpose_partial.
+Print Assumptions vol_avg_cell_sums.
+Print Assumptions vol_avg_is_edge_avg_transpose.
+Print Assumptions edge_avg_is_FIT_edge_mass.
+Print Assumptions edge_avg_upper_boundary.
 
 (* 9. chain rule: the factor derivative_chain multiplies with is d sigma/dm
    (generated chain_M, derivative proved in C14), hence for every function phi
